@@ -204,6 +204,14 @@ def segChunks (frameShape : List Nat) (tczyx : Bool) : List Nat :=
 /-! ### Bool decider of the *consistency* hypothesis of the C15 theorems (proved equivalent to the
 `Prop` in `GeffProofs/CtcBridge.lean`; the harness cross-checks its own notion against it) -/
 
+/-- `ndim ∈ {2,3}` and every centroid has `ndim` coordinates (hypothesis `Dataset.WF`) -/
+def wfB (ds : Dataset) : Bool :=
+  (ds.ndim == 2 || ds.ndim == 3) && ds.frames.all (fun fr => fr.all (fun r => r.centroid.length == ds.ndim))
+
+/-- labels strictly ascending inside each frame (hypothesis `Dataset.Sorted`) -/
+def sortedB (ds : Dataset) : Bool :=
+  ds.frames.all (fun fr => decide ((fr.map (·.label)).Pairwise (· < ·)))
+
 /-- label `l` occurs in frame `t` -/
 def occursB (ds : Dataset) (l : Int) (t : Nat) : Bool :=
   match ds.frames[t]? with
